@@ -29,16 +29,21 @@ LEVEL_TEXT = ('Partial. Coq theorems over hand models tied to the source by exac
               'reversed order (neighbours share edge nodes in matching order), interior ids at the interior positions, every id 0..nV+nE(p-1)+nT*nInt-1 '
               'is stored (no unused node), distinct slots get distinct ids (no duplicates), everything stored is in range; shared edge points agree '
               'up to delta|A-B| for 1-D nodes symmetric up to delta (Lobatto symmetry certificate evaluated in Coq over Q, delta = 1e-14). '
-              'NOT proved: affine placement of the node COORDINATES for every element (tests only); '
+              'Every entry of every elevated row is written (certified element, no directed pair twice). Coordinates: the stacked coordinate array is '
+              'modelled (vertex / edge-point / interior-point rows, compared with the implementation entry by entry), and the stored coordinate of every '
+              'edge node is within delta(|X0-X2|+|X1-X2|) (+ delta\'|Xa-Xb| for the right element) of the affine image of its reference node, vertex and '
+              'interior nodes exactly, where delta comes from the certificate that reference face nodes lie at the 1-D node parameters (evaluated in Coq over Q '
+              'for all orders 1..5 with and without bubble, tol 1e-14). Not proved: the single closed statement over the whole elevated mesh (it is the '
+              'composition of the proved pieces); binary64 rounding of the matrix products. '
               'netCDF4 is not installed, so the '
               'Exodus reader is executed against an in-memory stand-in for netCDF4.Dataset, not against real files.')
 TECHNIQUE = 'Coq proof over hand models (nat/Z/list; coordinates over R in theorems) + vm_compute correspondence with exact integer comparison'
 GEN = []
-TARGETS = ['model/M_C13_Elevate.vo', 'proofs/L_C13_Elevate.vo', 'proofs/L_C13_Elev2.vo', 'model/M_C13_Struct.vo', 'model/M_C13_Edges.vo', 'model/M_C13_Combine.vo', 'model/M_C13_Read.vo',
+TARGETS = ['model/M_C13_Elevate.vo', 'model/M_C13_Coords.vo', 'proofs/L_C13_Elevate.vo', 'proofs/L_C13_Elev2.vo', 'proofs/L_C13_Elev3.vo', 'proofs/L_C13_Coords.vo', 'model/M_C13_Struct.vo', 'model/M_C13_Edges.vo', 'model/M_C13_Combine.vo', 'model/M_C13_Read.vo',
            'proofs/L_C13_Struct.vo', 'proofs/L_C13_Edges.vo', 'proofs/L_C13_Combine.vo', 'proofs/L_C13_Read.vo', 'proofs/L_C13_Top.vo']
 COQ_FILES = ['base/Num.v', 'model/M_C13_Struct.v', 'model/M_C13_Edges.v', 'model/M_C13_Combine.v', 'model/M_C13_Read.v',
              'proofs/L_C13_Struct.v', 'proofs/L_C13_Edges.v', 'proofs/L_C13_Combine.v', 'proofs/L_C13_Read.v', 'proofs/L_C13_Top.v',
-             'model/M_C13_Elevate.v', 'proofs/L_C13_Elevate.v', 'proofs/L_C13_Elev2.v', 'props/P_C13.v']
+             'model/M_C13_Elevate.v', 'model/M_C13_Coords.v', 'proofs/L_C13_Elevate.v', 'proofs/L_C13_Elev2.v', 'proofs/L_C13_Elev3.v', 'proofs/L_C13_Coords.v', 'props/P_C13.v']
 TRUSTED = ['Coq 8.16.1 kernel + vm_compute (no native_compute)',
            'hand-written models coq/model/M_C13_*.v, tied by exact comparison of connectivity, edge tables, merged meshes and reader outputs',
            'harness: exact float -> rational conversion of coordinates, SciPy Delaunay as a generator of valid triangulations',
@@ -52,7 +57,7 @@ RULE = ('cases: structured sizes 2..7 x 2..7 with random extents; random Delauna
         'side-set names (mostly clashing, some distinct) through combine_mesh; abstract Exodus descriptions (tri3/tri6, 1..3 blocks, named and unnamed sets) '
         'and JSON files through the readers; elevation orders 2..5 with and without bubble (tests).  Non-trivial = at least 2 elements; '
         'distinct = distinct inputs')
-IMPORTS = ['From OV.model Require Import M_C13_Struct M_C13_Edges M_C13_Combine M_C13_Read M_C13_Elevate.']
+IMPORTS = ['From OV.model Require Import M_C13_Struct M_C13_Edges M_C13_Combine M_C13_Read M_C13_Elevate M_C13_Coords.']
 NAMES = ['block_0', 'left', 'right', 'top', 'bottom', 'all', 'inner', 'b1', 'b2']
 
 
@@ -740,6 +745,26 @@ def part_elevate(ctx, model_ok=False):
             img = ref[:, [0]] * X[0] + ref[:, [1]] * X[1] + (1 - ref[:, [0]] - ref[:, [1]]) * X[2]
             if np.abs(img - coords[conns[t]]).max() > 1e-12 * max(1.0, np.abs(X).max()):
                 bad.append('element %d: nodes are not at the affine image of the reference nodes' % t); break
+        # coordinate model (M_C13_Coords.elev_coord): row nV+e*m+k is the edge point at the k-th 1-D interior node between edgeConns[e],
+        # row nV+nE*m+t*nI+k the interior point with the reference coordinates of interior node k as weights
+        pe1 = m.parentElement1d
+        s1 = np.asarray(pe1.coordinates)[np.asarray(pe1.interiorNodes)]
+        nV_ = len(pts)
+        P = np.asarray(pts)
+        for e, (a, b) in enumerate(np.asarray(ec).tolist()):
+            want = (1 - s1)[:, None] * P[a] + s1[:, None] * P[b]
+            if np.abs(coords[nV_ + e * m1:nV_ + (e + 1) * m1] - want).max(initial=0.0) > 4e-16 * max(1.0, np.abs(P).max()):
+                bad.append('coordinate rows of edge %d are not (1-s_k) X[a] + s_k X[b]' % e); break
+        if nint:
+            Nref = ref[np.asarray(pe.interiorNodes)]
+            for t in range(len(tris)):
+                Xt = P[np.array(tris[t])]
+                want = Nref[:, [0]] * Xt[0] + Nref[:, [1]] * Xt[1] + (1 - Nref[:, [0]] - Nref[:, [1]]) * Xt[2]
+                base_ = nV_ + len(ec) * m1 + t * nint
+                if np.abs(coords[base_:base_ + nint] - want).max() > 4e-16 * max(1.0, np.abs(P).max()):
+                    bad.append('coordinate rows of the interior nodes of element %d are not the barycentric combination of its vertices' % t); break
+        if not np.array_equal(coords[:nV_], P):
+            bad.append('the first nV coordinate rows are not the vertex coordinates')
         if len({tuple(np.round(c, 10)) for c in coords.tolist()}) != n:
             bad.append('two nodes share the same position (duplicate nodes)')
         if np.asarray(m.conns[:, np.asarray(pe.vertexNodes)]).tolist() != tris:
@@ -769,6 +794,15 @@ def part_elevate(ctx, model_ok=False):
                 cexprs.append('pe_cert (mk_pe %d %s %s %s %s %s) %d' % (int(np.asarray(el.coordinates).shape[0]), zl(np.asarray(el.vertexNodes)),
                                                                        zl(fc[0][1:-1]), zl(fc[1][1:-1]), zl(fc[2][1:-1]), zl(np.asarray(el.interiorNodes)), order - 1))
                 cnames.append('reference element order %d%s: position tables partition the nodes' % (order, ' bubble' if bub else ''))
+                if order >= 2:
+                    qq = lambda x: '(%d # %d)' % (Fraction(float(x)).numerator, Fraction(float(x)).denominator)
+                    refc = np.asarray(el.coordinates)
+                    e1 = Interpolants.make_parent_element_1d(order)
+                    s1d = np.asarray(e1.coordinates)[np.asarray(e1.interiorNodes)]
+                    cexprs.append('ref_coord_cert [%s] (map Z.to_nat %s) [map Z.to_nat %s; map Z.to_nat %s; map Z.to_nat %s] [%s] (1 # 100000000000000)'
+                                  % ('; '.join('(%s, %s)' % (qq(x), qq(y)) for x, y in refc), zl(np.asarray(el.vertexNodes)), zl(fc[0][1:-1]), zl(fc[1][1:-1]), zl(fc[2][1:-1]),
+                                     '; '.join(qq(x) for x in s1d)))
+                    cnames.append('reference element order %d%s: vertex positions at the unit points, face nodes at the 1-D node parameters of their side (1e-14)' % (order, ' bubble' if bub else ''))
             xn = [Fraction(float(x)) for x in np.asarray(Interpolants.get_lobatto_nodes_1d(order))]
             cexprs.append('lobatto_sym_cert [%s] (1 # 100000000000000)' % '; '.join('(%d # %d)' % (q.numerator, q.denominator) for q in xn))
             cnames.append('Lobatto nodes of degree %d are symmetric about 1/2 within 1e-14' % order)
